@@ -3,7 +3,9 @@
 Gen.Gen_frames) with mutagen.id3 on per-spec generated values: _writeData / save_frame bytes, _readData values and
 leftover, flagged _fromData, read_frames on concatenated frames, validity predicate vs. real round trip,
 a malformed stream; (D) direct oracle on the public API: build, ID3().save, ID3(translate=False), compare
-type and every field, hand-built unsynchronised / data-length / zlib / v2.2 framings; (T) hand-built multi-frame tags
+type and every field, hand-built unsynchronised / data-length / zlib / v2.2 framings; (U) every v2.2 class, with and without each
+optional field, upgraded by the loader (translate off / default) and by Frame(other) / _upgrade_frame, against the generated values and the same
+payload in a v2.3 / v2.4 frame; copy constructor of every v2.3/v2.4 class; (T) hand-built multi-frame tags
 (CHAP/CTOC before, between and after other frames) in every tag framing of v2.2 / v2.3 / v2.4, each frame at each position
 compared with the generated values and with the plain tag; (V) vm_compute shard."""
 import io, os, re, sys, zlib, struct, random, math
@@ -20,6 +22,12 @@ TRUSTED = [
     "covered by the direct oracle only",
     "ID3TimeStamp parsing of non-canonical text is not modelled (time stamps are canonical YYYY[-MM[-DD[ HH[:MM[:SS]]]]] text in model and generators)",
     "ID3Tags._write ordering of nested CHAP/CTOC sub-frames (priority, size, HashKey) is taken from the implementation, not modelled",
+    "v2.2 -> v2.3/v2.4 upgrade: Frame._upgrade_frame / the generic Frame._to_other (fields copied by name, optional ones if set) is modelled "
+    "(Model.Id3Frame.upgrade_frame / to_other, C12_v22_upgrade_keeps_fields) with the identity test of the spec lists (`is`) modelled as equality of field "
+    "names; the classes overriding _to_other (PIC, LNK, RVA), ID3Tags._add and the update_to_v24 translation are not modelled (direct oracle only)",
+    "CHAP/CTOC nesting: /repo bounds ID3FramesSpec.read at 16 levels (header._nesting; a frame that would open level 17 is dropped as junk); the model's "
+    "depth-indexed reader mirrors it (tag_read O = junk, the implementation is tag_read (S nesting_limit)), tied by corr_nesting on CHAP towers of "
+    "1..40 levels; generated values nest at most 3 levels; a frame tree deeper than 16 levels does not survive loading (by design of the bound)",
 ]
 MANIFEST = {
     "text": "full over the frame table regenerated from the live registry (every class of Frames and Frames_2_2, every Spec class): Coq theorems for the text codecs "
@@ -29,6 +37,7 @@ MANIFEST = {
             "save_frame/read_frames round trip for v2.3 and v2.4, and equality of plain / unsynchronised (frame and tag flag) / data-length / stored-deflate framings; "
             "the tag-level unsynchronisation flag reaches every frame of the list whatever its position (C12_tag_flag_every_position), a v2.4 tag relying on the tag flag reads "
             "like the plain tag (C12_tag_flag_v24_agrees) and a v2.2/v2.3 tag unsynchronised as a whole reads like the plain tag (C12_whole_tag_unsynch_v22_v23); "
+            "the v2.2 upgrade keeps every field, optional ones included (C12_v22_upgrade_keeps_fields, hypotheses re-evaluated over the regenerated table by C12_v22_upgrade_table); "
             "the hand model is tied to mutagen.id3 by correspondence on every class x version x encoding (bytes, values, leftover, exception class, flagged _fromData, "
             "read_frames incl. v2.2 and the tag-level flag, malformed inputs) and the property is checked directly on ID3.save / ID3(translate=False) incl. zlib level 9 and v2.2 framings, "
             "and on hand-built multi-frame tags in every tag framing (v2.2 / v2.3 whole-tag unsynchronisation, v2.3 compression, v2.4 tag flag / frame flags / both / data length / compression)",
@@ -46,9 +55,11 @@ RULE = ("per frame class of the live registry x v2.4/v2.3 x text encoding 0-3: f
         "(astral/NUL-adjacent text, 0xFF/0x00 runs, integer lattices incl. mixed 2/3-byte RVA magnitudes, nested CHAP/CTOC, multi-values, empty descriptions); "
         "correspondence compares bytes/values/exception class of implementation and extracted model; direct oracle compares reloaded type and fields with the "
         "originals and across input framings; multi-frame tags: 2-7 generated frames (CHAP/CTOC with sub-frames first / between / last, payloads with FF 00, FF E0, trailing FF, "
-        "latin-1 y-diaeresis, UTF-16 BOMs), field bytes from the extracted model, framing by the harness, every frame at every position compared with the generated values and the plain tag. non-trivial = a frame with at least one non-default field was encoded and decoded; distinct by (class, version, encoding, framing, value seed)")
+        "latin-1 y-diaeresis, UTF-16 BOMs), field bytes from the extracted model, framing by the harness, every frame at every position compared with the generated values and the plain tag; "
+        "v2.2 upgrade: every class of Frames_2_2 x encoding 0/1 x number of optional fields set (0..all) x seeds, hand-built v2.2 tag, loader and Frame(other). non-trivial = a frame with at least one non-default field was encoded and decoded; distinct by (class, version, encoding, framing, value seed)")
 
-NOT_BY_THEOREM = ["zlib Huffman streams", "float conversion of gains/peaks", "ID3TimeStamp parsing", "v2.2 three-letter framing", "ID3Tags._write ordering"]
+NOT_BY_THEOREM = ["zlib Huffman streams", "float conversion of gains/peaks", "ID3TimeStamp parsing", "v2.2 three-letter framing (6-byte frame headers)", "ID3Tags._write ordering",
+                  "_to_other overrides of PIC / LNK / RVA", "update_to_v24 translation"]
 
 
 # ------------------------------------------------------------------------------------------------ mutagen access
@@ -1182,6 +1193,85 @@ def corr_misc(ctx, n):
             ctx.disagree("c12.peak", "VolumePeakSpec.read(%s): impl=%r model=%r" % (pd.hex(), ir, mr), {"data": pd.hex()})
 
 
+def corr_upgrade(ctx, reps):
+    """Frame._upgrade_frame of every v2.2 class that uses the generic _to_other: implementation vs model (fields copied by name)"""
+    mutagen, I, S, T, F, U = M()
+    for name in sorted(I.Frames_2_2):
+        cls = I.Frames_2_2[name]
+        if cls._to_other is not F.Frame._to_other:
+            ctx.count("corr:upgrade-own-_to_other-not-modelled")
+            continue
+        for nopt in range(len(cls._optionalspec) + 1):
+            for _ in range(reps):
+                seed = ctx.rng.getrandbits(40)
+                fr = gen_frame(random.Random(seed), cls, ctx.rng.choice(encs_for(cls)[:2]), 3, optional=nopt)
+                vals = frame_to_model(fr, 3, True)
+                try:
+                    up = fr._upgrade_frame()
+                    ir = "ok none" if up is None else "ok l(%s;%s)" % (hx(type(up).__name__.encode()), frame_to_model(up, 3, True))
+                except Exception as e:
+                    ir = "raise " + exc_name(e)
+                mr = ctx.model.call("c12_upgrade", name, vals)
+                ctx.corr_cases += 1
+                ctx.count("corr:upgrade_frame")
+                ctx.case(("RU", name, nopt, seed))
+                if ir != mr:
+                    ctx.disagree("c12.upgrade_frame", "%s._upgrade_frame() with %d optional fields: impl=%s model=%s" % (name, nopt, ir[:160], mr[:160]),
+                                 {"frame": name, "optional": nopt, "seed": seed})
+
+
+def nested_chaps(levels, ver, leaf=True):
+    """`levels` CHAP frames inside each other (hand-built), a TIT2 innermost"""
+    def frame(name, body):
+        return name + (syncsafe(len(body)) if ver == 4 else struct.pack(">L", len(body))) + b"\x00\x00" + body
+    inner = frame(b"TIT2", b"\x00leaf") if leaf else b""
+    for k in range(levels):
+        inner = frame(b"CHAP", b"c%d\x00" % (levels - k) + struct.pack(">4L", 1, 2, 3, 4) + inner)
+    return inner
+
+
+def corr_nesting(ctx):
+    """the nesting bound of ID3FramesSpec.read (16 levels): implementation vs model on CHAP towers around the bound"""
+    mutagen, I, S, T, F, U = M()
+    for ver in (4, 3):
+        for levels in (1, 2, 15, 16, 17, 18, 19, 40):
+            for leaf in (True, False):
+                blob = nested_chaps(levels, ver, leaf) + frame_tail(ver)
+                h = header(ver)
+                try:
+                    frames, unknown, rest = T.read_frames(h, blob, h.known_frames)
+                    ir = "ok l(%s) l(%s) %s" % (";".join("l(%s;%s)" % (hx(type(f).__name__.encode()), frame_to_model(f, ver, True)) for f in frames),
+                                                ";".join(hx(u) for u in unknown), hx(rest))
+                except Exception as e:
+                    ir = "raise " + exc_name(e)
+                mr = ctx.model.call("c12_tag", zs(ver), "0", hx(blob))
+                ctx.corr_cases += 1
+                ctx.count("corr:nesting-bound")
+                ctx.case(("RN", ver, levels, leaf))
+                if ir != mr:
+                    ctx.disagree("c12.nesting", "v2.%d read_frames of %d nested CHAP frames: impl=%s model=%s" % (ver, levels, ir[-160:], mr[-160:]), {"version": ver, "levels": levels})
+                # direct: within the bound every level is there, with the leaf
+                depth, node = 0, None
+                try:
+                    back = I.ID3(io.BytesIO(b"ID3" + bytes([ver, 0, 0]) + syncsafe(len(blob)) + blob), translate=False, load_v1=False)
+                    node = back
+                    while node.getall("CHAP"):
+                        node = node.getall("CHAP")[0].sub_frames
+                        depth += 1
+                except Exception as e:
+                    depth = "raised %s" % type(e).__name__
+                ctx.oracle_cases += 1
+                if levels <= 16 and (depth != levels or (leaf and [list(t.text) for t in node.getall("TIT2")] != [["leaf"]])):
+                    ctx.violation("oracle", "CHAP frames nested within the documented bound of 16 levels do not all load", {"runner": "c12.nesting", "version": ver, "levels": levels, "loaded": depth})
+                if levels > 16 and not isinstance(depth, int):
+                    ctx.violation("oracle", "CHAP frames nested beyond the bound make loading raise", {"runner": "c12.nesting", "version": ver, "levels": levels, "loaded": depth})
+
+
+def frame_tail(ver):
+    body = b"\x00tail"
+    return b"TALB" + (syncsafe(len(body)) if ver == 4 else struct.pack(">L", len(body))) + b"\x00\x00" + body
+
+
 def correspondence(ctx, reps, tags):
     mutagen, I, S, T, F, U = M()
     f34, f22 = registry()
@@ -1207,6 +1297,8 @@ def correspondence(ctx, reps, tags):
     for i in range(tags):
         corr_tag(ctx, (4, 3, 2)[i % 3], ctx.rng.randint(1, 4))
     corr_misc(ctx, 40 * reps)
+    corr_upgrade(ctx, 2 * reps)
+    corr_nesting(ctx)
 
 
 # ------------------------------------------------------------------------------------------------ (V) vm_compute shard
